@@ -154,8 +154,9 @@ def run(eng, R):
                              and k.get("with_name") == "False" for k in fmt),
             "probability": bool(prob_locals) or "self.chi2_probability" in src,
             "probability print": any(src.like("'%%schi2 probability = %%#.3g\\n\\n' %% (indent * (indentation_level + 2), %s)" % v) for v in sorted(prob_locals) + ["self.chi2_probability"]),
-            "correlations": common.like_any(src, "for _n, _r in zip(par_display_names, self.parameter_cor_mat.T): _d[_n] = np.atleast_1d(np.squeeze(np.asarray(_r)))"),
-            "names": common.like_any(src, "par_display_names = [_q.name for _q in self._get_model_function_parameter_formatters()]"),
+            "correlations": common.like_any(src, "for _n, _r in zip(par_display_names, self.parameter_cor_mat.T): _d[_n] = np.atleast_1d(np.squeeze(np.asarray(_r)))",
+                                            ["_pdn = [_q.name for _q in self._get_model_function_parameter_formatters()]", "for _n, _r in zip(_pdn, self.parameter_cor_mat.T): _d[_n] = np.atleast_1d(np.squeeze(np.asarray(_r)))"]),
+            "names": common.like_any(src, "par_display_names = [_q.name for _q in self._get_model_function_parameter_formatters()]", "_pdn = [_q.name for _q in self._get_model_function_parameter_formatters()]"),
         }
         for k, ok in checks.items():
             R.ob("T-live", "FitBase._report_fit_results:%s" % k, ok, (f.file, f.lineno), "the report must print %s from the live fit" % k)
@@ -173,8 +174,11 @@ def run(eng, R):
             R.ob("T-live", "FitYamlWriter._get_preface_comment:%s" % k, common.like_any(src, w), (f.file, f.lineno), "the preface comment must take %s from the live fit: `%s`" % (k, w[-1]))
         f = get_func(p, None, "kafe2.tools:get_compact_representation")
         src = _txt(f.node)
-        ok = "zip(parameter_names, parameter_values, parameter_errors, _cor_mat_row_strs)" in src and "_row.append(round(_par_val, _sig_fig_val))" in src and "_row.append(round(_par_err, _sig_fig_err))" in src \
-            and "_sig_fig_val = max(_sig_fig_err," in src
+        # placeholders: `_n` / `_v` / `_e` name, value and uncertainty of one row, `_se` / `_sv` their decimals, `_rows` the correlation row strings
+        ZIP = "zip(parameter_names, parameter_values, parameter_errors, _rows)"
+        ok = common.like_any(src, ["(_n, _v, _e, _c) in enumerate(%s)" % ZIP, "_row.append(round(_v, _sv))", "_row.append(round(_e, _se))", "_sv = max(_se,"],
+                             ["(_n, _v, _e, _c) in enumerate(%s)" % ZIP, "_row = [_n, round(_v, _sv), round(_e, _se)]", "_sv = max(_se,"],
+                             ["_n, _v, _e, _c in %s" % ZIP, "_row.append(round(_v, _sv))", "_row.append(round(_e, _se))", "_sv = max(_se,"])
         R.ob("T-live", "get_compact_representation:rows", ok, (f.file, f.lineno), "each row must show name, value and uncertainty of the same position; the value is rounded to at least the decimals of the uncertainty")
 
         # every log10 in the compact table is taken of a quantity that was tested against zero / nan on the way there
@@ -191,7 +195,9 @@ def run(eng, R):
                 if len(names) != 1:
                     continue
                 n_log += 1
-                v = names[0]
+                # a written-out helper's parameter stands for the argument it was called with
+                rv = common.resolve_local(scope, ast.Name(id=names[0], ctx=ast.Load()))
+                v = rv.id if isinstance(rv, ast.Name) else names[0]
                 conds = common.guard_conditions(scope, c, flat=True)
                 guarded = False
                 for t, pol in conds:
@@ -251,8 +257,9 @@ def run(eng, R):
         R.ob("H-dec", "ParameterFormatter.get_formatted:asymmetric", ok, (f.file, f.lineno), "the smaller asymmetric uncertainty gets n significant digits, the larger one the same decimals")
         f = get_func(p, "CostFunctionFormatter", "get_formatted")
         src = _txt(f.node)
-        ok = "_value_string = '%.4g' % value" in src and "_value_string = '%s / %d' % (_value_string, n_degrees_of_freedom)" in src \
-            and "_value_string = '%s = %.4g' % (_value_string, float(value) / n_degrees_of_freedom)" in src
+        ok = src.like("_vs = '%.4g' % value") and common.like_any(src, "_vs = '%s / %d' % (_vs, n_degrees_of_freedom)", "_vs += ' / %d' % (n_degrees_of_freedom,)", "_vs += ' / %d' % n_degrees_of_freedom") \
+            and common.like_any(src, "_vs = '%s = %.4g' % (_vs, float(value) / n_degrees_of_freedom)", "_vs += ' = %.4g' % (float(value) / n_degrees_of_freedom,)",
+                                ["_q = float(value) / n_degrees_of_freedom", "_vs += ' = %.4g' % (_q,)"])
         R.ob("H-dec", "CostFunctionFormatter.get_formatted", ok, (f.file, f.lineno), "the cost is printed with 4 significant digits, the ndf as integer, the quotient as value / ndf")
 
     # ------------------------------------------------------------------ H-exp
